@@ -106,15 +106,27 @@ func spinWatch() {
 		}
 		buf := make([]byte, 1<<20)
 		n := runtime.Stack(buf, true)
-		var spinning []string
+		var spinning, blocked []string
 		for _, blk := range strings.Split(string(buf[:n]), "\n\n") {
 			head, _, _ := strings.Cut(blk, "\n")
-			if (strings.Contains(head, "[running") || strings.Contains(head, "[runnable")) && hasSUTFrame(blk) {
+			if !hasSUTFrame(blk) {
+				continue
+			}
+			switch {
+			case strings.Contains(head, "[running") || strings.Contains(head, "[runnable"):
 				spinning = append(spinning, blk)
+			case strings.Contains(head, "synctest bubble") && !strings.Contains(head, "(durable)") && !strings.Contains(head, "[sleep"):
+				// waiting for something that lives outside the bubble (a channel or lock created at package
+				// level): the virtual clock cannot pass it, nobody inside the bubble will ever release it
+				blocked = append(blocked, blk)
 			}
 		}
 		fmt.Printf("sim: SPIN DETECTED: no scheduling step for %s while a scenario was executing\n", SpinLimit)
-		fmt.Printf("goroutines of the library that are running without reaching a seam:\n%s\n", strings.Join(spinning, "\n\n"))
+		if len(spinning) == 0 && len(blocked) > 0 {
+			fmt.Printf("goroutines of the library that wait for something no goroutine of the run will release (process-wide channel or lock):\n%s\n", strings.Join(blocked, "\n\n"))
+		} else {
+			fmt.Printf("goroutines of the library that are running without reaching a seam:\n%s\n", strings.Join(spinning, "\n\n"))
+		}
 		os.Exit(3)
 	}
 }
